@@ -70,6 +70,23 @@ def mtime_helper(F):
     return res
 
 
+def digest_renderers(F):
+    """crate-local fns (&[u8; 32] -> String) called from bidir.rs: what prints a digest into a conflict-copy name"""
+    key = (id(F), 'digest')
+    if key in _cache:
+        return _cache[key]
+    out = set()
+    for p, b in F.bodies.items():
+        if not b.file.endswith('bin/copia/bidir.rs'):
+            continue
+        for bi, t in _calls(F, b, lambda c: F.body(c) is not None):
+            cb = F.body(_callee(t))
+            if cb.argc == 1 and cb.local_ty(1).replace(' ', '') == '&[u8;32]' and cb.local_ty(0) == 'std::string::String':
+                out.add(cb.path)
+    _cache[key] = out
+    return out
+
+
 def protected(F):
     """function paths that must stay functions (never spliced into their callers)"""
     out = set()
@@ -78,4 +95,5 @@ def protected(F):
         m = mtime_helper(F)
         if m:
             out.add(m)
+    out |= digest_renderers(F)
     return out
